@@ -184,6 +184,31 @@ def distinct(rng, make, n, key=lambda x: x, tol=1e-6, tries=50):
 
 
 FORMS = ['list', 'tuple', 'array', 'row', 'col']
+# the same values as a different OBJECT: what a caller may legitimately hold (a slice of a bigger array, a frozen array, the
+# transpose of a transpose, a list of NumPy scalars).  Never changes a value.
+LAYOUTS = ['readonly', 'strided', 'fortran', 'negstride', 'npscalars']
+
+
+def layout(a, how):
+    """a (ndarray) -> equal values in an unusual but legal object layout"""
+    a = np.array(a)
+    if how in (None, 'plain'):
+        return a
+    if how == 'readonly':
+        a.flags.writeable = False
+        return a
+    if how == 'strided':       # every second element of a bigger array filled with NaN elsewhere
+        big = np.full(tuple(2 * s for s in a.shape), np.nan if a.dtype.kind == 'f' else 99, dtype=a.dtype)
+        view = big[tuple(slice(None, None, 2) for _ in a.shape)]
+        view[...] = a
+        return view
+    if how == 'fortran':
+        return np.asfortranarray(a) if a.ndim > 1 else layout(a, 'strided')
+    if how == 'negstride':
+        return np.array(a[::-1])[::-1] if a.ndim else a
+    if how == 'npscalars':     # list (of lists) of NumPy scalars
+        return [layout(x, 'npscalars') for x in a] if a.ndim > 1 else [x for x in a] if a.ndim == 1 else a[()]
+    raise ValueError(how)
 
 
 def as_form(v, form, ints=False):
